@@ -892,6 +892,25 @@ fn parse_and_verify_peer_id(
     Ok(peer_id)
 }
 
+/// Verification hook: run [`parse_and_verify_peer_id`] on the raw parts of a handshake payload.
+#[cfg(feature = "verif")]
+pub fn verif_parse_and_verify_peer_id(
+    identity_key: Option<Vec<u8>>,
+    identity_sig: Option<Vec<u8>>,
+    dh_remote_pubkey: &[u8],
+) -> Result<PeerId, NegotiationError> {
+    let payload = handshake_schema::NoiseHandshakePayload {
+        identity_key,
+        identity_sig,
+        ..Default::default()
+    };
+    parse_and_verify_peer_id(payload, dh_remote_pubkey)
+}
+
+/// Verification hook: the domain separator signed together with the remote static DH key.
+#[cfg(feature = "verif")]
+pub const VERIF_STATIC_KEY_DOMAIN: &str = STATIC_KEY_DOMAIN;
+
 /// The type of the transport used for the crypto/noise protocol.
 ///
 /// This is used for logging purposes.
